@@ -100,14 +100,15 @@ inline double piece_int_abs(double w, double h0, double h1) {
   if (h0 * h1 >= 0) return w * (std::fabs(h0) + std::fabs(h1)) / 2;
   return w * (h0 * h0 + h1 * h1) / (2 * (std::fabs(h0) + std::fabs(h1)));
 }
-// integral of |h|^p over the piece, p >= 1, any real p, h linear
-inline double piece_int_abs_pow(double w, double h0, double h1, double p) {
+// integral of |h|^p over the piece, p a positive integer, h linear.  Only sums of non-negative terms: no cancellation.
+inline double piece_int_abs_pow(double w, double h0, double h1, int p) {
   double a0 = std::fabs(h0), a1 = std::fabs(h1);
   if (h0 * h1 >= 0) {
-    if (a0 == a1) return w * std::pow(a0, p);
-    return w * (std::pow(a1, p + 1) - std::pow(a0, p + 1)) / ((p + 1) * (a1 - a0));
+    double acc = 0;   // (a1^(p+1) - a0^(p+1)) / (a1 - a0) = sum_j a0^j a1^(p-j)
+    for (int j = 0; j <= p; ++j) acc += std::pow(a0, j) * std::pow(a1, p - j);
+    return w * acc / (p + 1);
   }
-  // crossing: two triangles-like pieces of widths w*a0/(a0+a1) and w*a1/(a0+a1)
+  // crossing: two pieces of widths w*a0/(a0+a1) and w*a1/(a0+a1), each the integral of a power that starts at 0
   return w * (std::pow(a0, p + 1) + std::pow(a1, p + 1)) / ((p + 1) * (a0 + a1));
 }
 inline double piece_int_prod(double w, double f0, double f1, double g0, double g1) {
@@ -140,7 +141,7 @@ inline double integral_pow_all(const Fn& f, int p) {
 inline double integral_all(const Fn& f) { return integral_pow_all(f, 1); }
 
 // ( sum_k  integral |f_k|^p )^(1/p)
-inline double norm_p(const Fn& f, double p) {
+inline double norm_p(const Fn& f, int p) {
   std::vector<double> xs = f.knots();
   size_t nl = f.nlevels();
   auto tab = table(f, xs, nl);
@@ -159,7 +160,7 @@ inline double norm_sup(const Fn& f) {
   for (double x : xs) for (double v : f.eval_all(x)) s = std::max(s, std::fabs(v));
   return s;
 }
-inline double distance_p(const Fn& f, const Fn& g, double p) { return norm_p(minus(f, g), p); }
+inline double distance_p(const Fn& f, const Fn& g, int p) { return norm_p(minus(f, g), p); }
 inline double distance_sup(const Fn& f, const Fn& g) { return norm_sup(minus(f, g)); }
 
 // sum_k integral f_k g_k
